@@ -261,6 +261,12 @@ def settings_grid(name, quick=True, seed=0):
                 if base_name(name) in ("bcrypt", "bcrypt_sha256") and size == 22:
                     salt = salt[:-1] + ("u" if sym == sc[-1:] else ".")
                 out.append(dict(base, salt=salt, **extras[0]))
+        # ... and the longest salt the format takes (up to 1024: the hash string then runs to ~1400 characters)
+        mx = g(name, "max_salt_size")
+        if mx is None and g(name, "min_salt_size") is not None:
+            mx = 1024  # no upper limit declared
+        if mx and 64 < mx <= 1024 and name != "scrypt":
+            out.append(dict(base, salt=make_salt(name, mx, seed, 5), **extras[0]))
     return out
 
 
